@@ -37,7 +37,7 @@ type Pred struct {
 // TmplPart is one element of a template of the mini-grammar the harness can expand itself.
 type TmplPart struct {
 	// Kind: lit | label | line | ts_nanos | ts_unix | upper | lower | ToUpper | ToLower |
-	// printf2 | default | trim | fail_unixToTime | fail_regex
+	// printf2 | default | trim | unix_of_label | fail_unixToTime | fail_regex
 	Kind string `json:"kind"`
 	Text string `json:"text,omitempty"` // literal text, default value
 	A    string `json:"a,omitempty"`    // label
@@ -131,6 +131,8 @@ type Metric struct {
 	// vecagg
 	HasK  bool    `json:"has_k,omitempty"`
 	K     int     `json:"k,omitempty"`
+	// KText, when set, is how k is spelled (leading zeros are still decimal).
+	KText string `json:"k_text,omitempty"`
 	Inner *Metric `json:"inner,omitempty"`
 	// GroupingFirst prints "sum by (a) (expr)" instead of "sum(expr) by (a)".
 	GroupingFirst bool `json:"grouping_first,omitempty"`
